@@ -322,6 +322,7 @@ def process_tpms(
                 field.type,
                 path / PathNode(field.name),
                 selector=selector_value,
+                selector_path=path / PathNode(selector_name),
                 size_constraints=size_constraints,
                 abort_on_error=abort_on_error,
             )
@@ -414,7 +415,14 @@ def process_tpm2b(tpm_type, path, size_constraints=None, abort_on_error=True):
     return size_size + buffer_size, tpm_type(**values)
 
 
-def process_tpmu(tpm_type, path, selector, size_constraints=None, abort_on_error=True):
+def process_tpmu(
+    tpm_type,
+    path,
+    selector,
+    selector_path=None,
+    size_constraints=None,
+    abort_on_error=True,
+):
     """Coroutine. Send in one byte if it yields None. Send in None if it yields an MarshalEvents."""
     none = yield MarshalEvent(path, tpm_type, ...)
     assert none is None
@@ -434,9 +442,12 @@ def process_tpmu(tpm_type, path, selector, size_constraints=None, abort_on_error
         # selector value fails to select union member
         # only possible if value checking is turnt off
         # TODO only possible if value checking is turnt off
-        raise AssertionError(
-            f"Selection error in {path} ({tpm_type.__name__}): {selector} not in {selection}. Value checking should have taken when parsing the selector, right?"
+        value_constraint = ValueConstraint(
+            constraint_path=selector_path,
+            tpm_type=type(selector),
+            valid_values=ValidValues(*(s for s in selection if s is not None)),
         )
+        raise ValueConstraintViolatedError(constraint=value_constraint, value=selector)
         # raise ValueConstraintViolatedError(
         #     tpm_type=None,  # TODO type of selector
         #     path=None,  # TODO path of selector
@@ -706,6 +717,7 @@ def process(
     tpm_type,
     path,
     selector=None,
+    selector_path=None,
     count=None,
     command_code=None,
     parameter_encryption=None,
@@ -751,6 +763,7 @@ def process(
             tpm_type,
             path,
             selector=selector,
+            selector_path=selector_path,
             size_constraints=size_constraints,
             abort_on_error=abort_on_error,
         )
